@@ -5,6 +5,7 @@
 #include "c03.hpp"
 #include "c20.hpp"
 #include "c09.hpp"
+#include "c11.hpp"
 
 using namespace vf;
 
@@ -59,6 +60,7 @@ int main(int argc, char **argv) {
     char self[4096];
     ssize_t n = readlink("/proc/self/exe", self, sizeof self - 1);
     tp::g_self = n > 0 ? std::string(self, static_cast<size_t>(n)) : std::string(argv[0]);
+    c11::g_self = tp::g_self;
     std::string prop = argv[1];
     Options opt = parse_args(argc, argv, 2);
     int rc = 2;
@@ -68,6 +70,7 @@ int main(int argc, char **argv) {
     else if (prop == "c08") rc = drive("C08", opt, tp::c08);
     else if (prop == "c20") rc = drive("C20", opt, c20::body);
     else if (prop == "c09") rc = drive("C09", opt, c09::body);
+    else if (prop == "c11") rc = drive("C11", opt, c11::body);
     else if (prop == "c12") rc = drive("C12", opt, tp::c12);
     if (opt.own_work) rm_rf(opt.work);
     return rc;
